@@ -265,6 +265,16 @@ def gen_cases(rng, tier):
     for i in range(n_step):
         names = rng.sample(NAMES, rng.randint(1, 4))
         cases.append({'kind': 'step', 'proc': procs[i % len(procs)], 'names': names, 'sel': gen_sel(rng, names)})
+        if len(names) >= 2 and rng.chance(0.3):
+            # the last resource is produced upstream as a duplicate of the first (its rows exist only once the
+            # first has been read): a step must leave it intact whatever it does to the first
+            cases[-1]['dup'] = True
+    # systematically: every processor with the first resource selected (by name and by position) while the last one is
+    # an upstream duplicate of it
+    for proc in procs:
+        names = rng.sample(NAMES, rng.randint(2, 3))
+        cases.append({'kind': 'step', 'proc': proc, 'names': names, 'sel': ['list', [names[0]]], 'dup': True})
+        cases.append({'kind': 'step', 'proc': proc, 'names': names, 'sel': ['idx', 0], 'dup': True})
     for i in range({'quick': 6, 'thorough': 40, 'search': 6}[tier]):
         names = rng.sample(NAMES, rng.randint(2, 3))
         cases.append({'kind': 'step', 'proc': 'parallelize', 'names': names, 'sel': gen_sel(rng, names)})
@@ -300,14 +310,20 @@ def run_impl(case):
     if proc in ('load_tuple', 'load_dp'):
         return run_load(case, res, sel)
     log = []
-    base = canon(run_stream(res, []))
+    pre = []
+    if case.get('dup'):
+        res = resources_for(names[:-1])
+        pre = [DF.duplicate(source=names[0], target_name=names[-1], target_path=names[-1] + '.csv', duplicate_to_end=True)]
+    base = canon(run_stream(res, pre + []))
     try:
         step_all = mk_step(proc, None, [])
         step_sel = mk_step(proc, sel, log)
     except Exception as e:
         return {'error': err_code(e), 'exc': '%s: %s' % (type(e).__name__, e), 'phase': 'construct'}
-    alls = canon(run_stream(res, [step_all]))
-    out = canon(run_stream(res, [step_sel]))
+    alls = canon(run_stream(res, pre + [step_all]))
+    if case.get('dup'):
+        pre = [DF.duplicate(source=names[0], target_name=names[-1], target_path=names[-1] + '.csv', duplicate_to_end=True)]
+    out = canon(run_stream(res, pre + [step_sel]))
     return {'base': base, 'all': alls, 'out': out, 'printed': log}
 
 
